@@ -23,6 +23,18 @@ ASSUMPTIONS = ["dict/object entry order and set order are not compared (zarr lis
 EXPLANATION = "see MANIFEST level text"
 
 
+def pregenerate():
+    """called by the runner before `lake build`: retranslate the dispatch chain of `_serialize_value` from
+    $QVERIF_REPO/src (harness/translator/serdispatch2lean.py -> lean/QuantemModel/Generated/SerializeDispatch.lean).
+    A source outside the translator's grammar is returned as a note (recorded as a broken tie; the previous file stays)."""
+    from translator import serdispatch2lean
+    try:
+        serdispatch2lean.regenerate()
+    except serdispatch2lean.TranslationError as e:
+        return f"TranslationError: {e}"
+    return None
+
+
 def scratch():
     d = os.path.join(os.environ.get("QVERIF_SCRATCH", "/tmp"), "c01")
     os.makedirs(d, exist_ok=True)
@@ -307,6 +319,7 @@ def run(ctx):
         signature_tie(ctx)
         seqkeys_stream(ctx, drv)
         cx.numeric_stream(ctx, drv)
+        cx.dispatch_stream(ctx, drv)
         cx.resolve_stream(ctx, drv)
         cx.history_stream(ctx, drv)
         # fixed probe of a recorded finding (int/float promotion in the ndarray fast path)
@@ -343,6 +356,9 @@ def replay(ctx, rep):
             return True
         if case.get("save_args"):
             cx.resolve_case(ctx, drv, case, "replay")
+            return True
+        if case.get("dispatch") or case.get("dispatch_value"):
+            cx.dispatch_stream(ctx, drv)
             return True
         if case.get("numeric_scalar"):
             cx.numeric_stream(ctx, drv)
